@@ -92,7 +92,7 @@ inline Stripe encode(int desc, const Config &c, const std::vector<uint8_t> &data
     s.data = data;
     ExactBuf in(data);
     char **ed = nullptr, **ep = nullptr;
-    uint64_t fl = 0;
+    uint64_t fl = 0xDEADBEEFCAFEull;          // poisoned: a success that forgets to set it is visible
     s.rc = liberasurecode_encode(desc, in.p, data.size(), &ed, &ep, &fl);
     if (s.rc != 0) return s;
     s.fraglen = fl;
@@ -179,12 +179,13 @@ struct DecodeOut { int rc = 0; bool out_null = true; std::vector<uint8_t> out; u
 inline DecodeOut decode(int desc, FragSet &fs, uint64_t fraglen, int force) {
     DecodeOut d;
     char *out = nullptr;
-    uint64_t len = 0;
+    uint64_t len = 0xDEADBEEFCAFEull;         // poisoned
     d.rc = liberasurecode_decode(desc, fs.ptrs, fs.count, fraglen, force, &out, &len);
     d.out_null = out == nullptr;
     if (d.rc == 0) {
         d.out_len = len;
-        if (out && len) d.out.assign((uint8_t *)out, (uint8_t *)out + len);
+        if (len > (1ull << 32)) { d.out_len = len; d.out.clear(); d.out.push_back(0xEE); }      // length never set: reported as a mismatch by the callers
+        else if (out && len) d.out.assign((uint8_t *)out, (uint8_t *)out + len);
         d.cleanup_rc = liberasurecode_decode_cleanup(desc, out);
     }
     return d;
